@@ -10,7 +10,7 @@ from ..astutil import call_name
 from ..e7_order import weak_orderings
 from ..e3_axes import Interp, Arr, Num, Ax
 from ..scenarios import fit_scenario, nonusage, dedup_events
-from ..match import expect_assign, expect_call, canon_equal, resolve_expr
+from ..match import equal_resolved, expect_assign, expect_call, canon_equal, resolve_expr
 
 PROP = "C15"
 EXPLANATION = (
@@ -181,10 +181,18 @@ def run(pm, ctx):
         v = norm_src(s.value)
         masked = _in_else(s)
         want = "int((self.n_cuts + 1) ** len(self.cut_points_list_))" if masked else "int((self.n_cuts + 1) ** X.shape[1])"
-        if v not in (want, "int((self.n_cuts + 1) ** len(self.cut_points_list_))"):
+        if v not in (want, "int((self.n_cuts + 1) ** len(self.cut_points_list_))") and not equal_resolved(s, s.value, [want, "int((self.n_cuts + 1) ** len(self.cut_points_list_))"]):
             okk = False
     ls = [s for s in ast.walk(ip) if isinstance(s, ast.Assign) and attr_chain(s.targets[0]) == "self.leaf_scores_"]
-    okk = okk and len(ls) == 1 and "size=(num_leaf, self.n_clusters)" in norm_src(ls[0].value)
+    ls_src = ""
+    if len(ls) == 1:
+        try:
+            from ..match import cfg_node
+            cfg_ip = CFG(ip)
+            ls_src = str(norm_src(resolve_expr(cfg_ip, cfg_node(cfg_ip, ls[0]), ls[0].value)))
+        except Exception:
+            ls_src = str(norm_src(ls[0].value))
+    okk = okk and len(ls) == 1 and ("size=(num_leaf, self.n_clusters)" in norm_src(ls[0].value) or "size=(num_leaf, self.n_clusters)" in ls_src)
     draws = [n for n in ast.walk(ip) if isinstance(n, ast.Call) and (call_name(n) or "").endswith(".normal") and "n_cuts" in norm_src(n)]
     okk = okk and len(draws) == 2 and all(norm_src(kw.value) in ("(self.n_cuts,)", "self.n_cuts") for d in draws for kw in d.keywords if kw.arg == "size")
     if okk:
@@ -253,7 +261,8 @@ def run(pm, ctx):
     site = "Douglas._leaf_binning: biases"
     if not bdef:
         ctx.unrecognised("C15-c", site, "no bias b")
-    elif "np.cumsum(np.concatenate([np.zeros(1), -sorted_cut_points]))" in norm_src(bdef[0].value):
+    elif "np.cumsum(np.concatenate([np.zeros(1), -sorted_cut_points]))" in norm_src(bdef[0].value) or equal_resolved(
+            bdef[0], bdef[0].value, ["np.cumsum(np.concatenate([np.zeros(1), -sorted_cut_points])).reshape((1, -1))"]):
         ctx.ok("C15-c", site, "b_k = -(sum of the k smallest cuts)")
     else:
         ctx.violation("C15-c", u.relpath, "Douglas._leaf_binning", norm_src(bdef[0]), "the bin biases are not the cumulative sums of the negated sorted cut points", line=bdef[0].lineno, site=site)
